@@ -100,6 +100,19 @@ theorem C07_poll_total_and_empty_only_if_empty (s : St) :
     split at h <;> simp at h
     rename_i hc; exact ⟨hc, h.symm⟩
 
+/-- **TakeWithTimeout: a timeout never costs a value.**  The timeout branch of the select is enabled whenever a
+    consumer waits (time is nondeterminism: also while a value is available or is being handed over); it consumes
+    the waiter and nothing else, and the state it leaves is again reachable — so the conservation law holds after
+    it and the value that raced with the timeout is still the next one delivered.  (That the waiter is consumed
+    EITHER by `recvTake`/a handoff OR by `recvTimeout` is the atomicity of Go's `select`; the first four
+    conjuncts restate the atom and are listed for the reader, the last two are the content.) -/
+theorem C07_timeout_loses_nothing (c b : Nat) (s s' : St) (h : Reach c b s) (hs : step s .recvTimeout = some s') :
+    s'.chan = s.chan ∧ s'.pool = s.pool ∧ s'.accepted = s.accepted ∧ s'.delivered = s.delivered ∧
+    Reach c b s' ∧ s'.delivered ++ s'.chan ++ optl s'.inflight ++ s'.pool = s'.accepted := by
+  have hr : Reach c b s' := reach_step h hs
+  refine ⟨?_, ?_, ?_, ?_, hr, C07_fifo c b s' hr⟩ <;>
+    (simp only [step] at hs; split at hs <;> simp at hs; subst hs; rfl)
+
 /-- **Count at quiescence**: with no Offer and no loader pass in progress, `Count()` (= len(channel) +
     pool.Count()) equals accepted minus delivered -/
 theorem C07_count (c b : Nat) (s : St) (h : Reach c b s) (hq : s.lock = .free) :
@@ -153,10 +166,10 @@ theorem C07_progress_woke (c b : Nat) (s : St) (h : Reach c b s) (hc : 1 ≤ c) 
   have hcc : 0 < s.c := by have := (reach_cfg h).1; omega
   exact ⟨_, by simp [run, step, hl, hw, hch, hp, hin, hcc]; rfl, by simp, rfl⟩
 
-/-- a loader pass started under the lock always runs to completion (with nobody blocked in a receive it ends by
-    `loaderDone` or `loaderUnshift`), leaves `delivered`/`accepted` untouched, and leaves the channel non-empty if it
+/-- a loader pass started under the lock always runs to completion (for c ≥ 1, or with nobody blocked in a receive, by
+    buffered sends ending in `loaderDone` or `loaderUnshift`; waiters are not needed and not consumed), leaves `delivered`/`accepted` untouched, and leaves the channel non-empty if it
     was non-empty or there was anything to move and c ≥ 1 -/
-theorem C07_pass_terminates (s : St) (hl : s.lock = .loader) (hw : s.waiters = 0) :
+theorem C07_pass_terminates (s : St) (hl : s.lock = .loader) (hw : s.waiters = 0 ∨ 0 < s.c) :
     ∃ acts s', acts.all noOffer = true ∧ run s acts = some s' ∧ s'.lock = .free ∧ s'.lpc = .waiting ∧
       s'.delivered = s.delivered ∧ s'.accepted = s.accepted ∧
       ((s.chan ≠ [] ∨ ((s.inflight ≠ none ∨ s.pool ≠ []) ∧ 0 < s.c)) → s'.chan ≠ []) := by
@@ -164,16 +177,16 @@ theorem C07_pass_terminates (s : St) (hl : s.lock = .loader) (hw : s.waiters = 0
   exact ⟨acts, s', ha, hr, pe.lock, pe.lpc, pe.deliv, pe.acc, pe.chanNe⟩
 
 /-- **Nothing stranded, whole queue (c ≥ 1).**  From every reachable quiescent state (no Offer in progress, no
-    pass in progress, nobody blocked in a receive) there is a continuation consisting only of Poll atoms (`notify`,
+    pass in progress; ANY number of consumers may be blocked in a receive) there is a continuation consisting only of Poll atoms (`notify`,
     `tryRecv`) and loader atoms — no further Offer — after which every accepted value has been delivered; by
     `C07_fifo` in acceptance order.  (Existence of the schedule = what repeated Poll calls and the passes they
     trigger do under a fair scheduler; fairness itself is an assumption.) -/
 theorem C07_drain (c b : Nat) (s : St) (h : Reach c b s) (hc : 1 ≤ c) (hl : s.lock = .free)
-    (hp : s.lpc ≠ .inpass) (hw : s.waiters = 0) :
+    (hp : s.lpc ≠ .inpass) :
     ∃ acts s', acts.all noOffer = true ∧ run s acts = some s' ∧ s'.delivered = s.accepted ∧
       s'.accepted = s.accepted ∧ Reach c b s' := by
   obtain ⟨acts, s', ha, hr, hd, hacc⟩ := drain (s.accepted.length - s.delivered.length + 1) s (reach_inv h)
-    (by rw [(reach_cfg h).1]; exact hc) hl hp hw (by omega)
+    (by rw [(reach_cfg h).1]; exact hc) hl hp (by omega)
   obtain ⟨pre, hpre⟩ := h
   refine ⟨acts, s', ha, hr, hd, hacc, pre ++ acts, ?_⟩
   rw [run_append, hpre]; simpa using hr
@@ -185,14 +198,14 @@ def holdMeasure (s : St) : Nat := passMeasure s
     Offer one atom after `Lock`: Offer, notifyWorkers (Poll/Take/GetChannel) and Count wait for the lock only
     boundedly -/
 theorem C07_lock_hold_bounded (s s' : St) (a : Act) (h : step s a = some s') (hl : s.lock ≠ .free)
-    (ha : a ≠ .recvWait ∧ a ≠ .recvTake ∧ a ≠ .tryRecv ∧ a ≠ .pollEmpty ∧ a ≠ .loaderWake) :
+    (ha : a ≠ .recvWait ∧ a ≠ .recvTake ∧ a ≠ .recvTimeout ∧ a ≠ .tryRecv ∧ a ≠ .pollEmpty ∧ a ≠ .loaderWake) :
     s'.lock = .free ∨ (s'.lock = s.lock ∧ holdMeasure s' < holdMeasure s) := by
   cases a <;> simp only [step] at h <;> (repeat' split at h) <;> simp at h <;> (try subst h) <;>
     simp_all [holdMeasure, passMeasure] <;> omega
 
 /-- no deadlock under the lock: whoever holds it has an enabled atom -/
 theorem C07_lock_holder_enabled (c b : Nat) (s : St) (h : Reach c b s) (hl : s.lock ≠ .free) :
-    ∃ a, (step s a).isSome ∧ a ≠ .recvWait ∧ a ≠ .recvTake ∧ a ≠ .tryRecv ∧ a ≠ .pollEmpty ∧ a ≠ .loaderWake ∧
+    ∃ a, (step s a).isSome ∧ a ≠ .recvWait ∧ a ≠ .recvTake ∧ a ≠ .recvTimeout ∧ a ≠ .tryRecv ∧ a ≠ .pollEmpty ∧ a ≠ .loaderWake ∧
       a ≠ .notify := by
   have i := reach_inv h
   cases hk : s.lock with
@@ -283,7 +296,9 @@ example : run (init 1 1) [.offerLock 1, .offerChan 1, .offerLock 2, .offerPool 2
 
 /-- observation (not a violation of the property as stated): a consumer already blocked in `Take` (waiters = 1)
     while the loader's pass found the channel full is not served until the NEXT Take/Poll/GetChannel call by
-    anyone posts a token — pool non-empty, channel empty, no token, loader asleep, lock free -/
+    anyone posts a token — pool non-empty, channel empty, no token, loader asleep, lock free.  The state satisfies
+    the hypotheses of `C07_drain` (lock free, no pass in progress, c = 1; one consumer blocked): a further Poll by
+    anyone drains it -/
 example : run (init 1 1) [.offerLock 1, .offerChan 1, .offerLock 2, .offerPool 2, .notify, .recvWait, .notify, .recvWait,
       .loaderWake, .loaderLock, .loaderPoll, .loaderUnshift, .recvTake] =
     some ⟨1, 1, [], [2], none, false, .free, .waiting, 1, [1, 2], [1]⟩ := by decide
@@ -343,5 +358,26 @@ theorem C07_guards_consumers :
     Gen.bcqGuardsOf "GetChannel" = some ["return q.blockingQueue"] ∧
     Gen.bcqGuardsOf "Put" = some ["return q.Offer(val)"] ∧
     Gen.bcqGuardsOf "notifyWorkers" = some ["if q.isClosed.Get()", "return"] := by decide +kernel
+
+/-- constructor wiring (review R3; the skeleton only says that three channels are made): the wake-up channel has
+    capacity 1 (`token : Bool`), the data channel gets `channelCapacity` (`c`), the overflow bound is
+    `bufferSizeMaximum` (`b`), and a ChannelQueue of capacity k is `make(chan T, k)` -/
+theorem C07_guards_constructor :
+    Gen.bcqGuardsOf "NewBufferedChannelQueue" = some ["field loadWorkerCh: NewChannelQueue[int](1)",
+      "field blockingQueue: NewChannelQueue[T](channelCapacity)", "field pool: pool",
+      "field bufferSizeMaximum: bufferSizeMaximum"] ∧
+    Gen.bcqGuardsOf "NewChannelQueue" = some ["return make(ChannelQueue[T], capacity)"] := by decide +kernel
+
+/-- what the six ChannelQueue wrappers return in each branch of their select / receive (`chTrySend`, `chTryRecv`:
+    nil | Full, value | Closed (`!ok`) | Empty, and the two timeouts) -/
+theorem C07_guards_chq :
+    Gen.bcqGuardsOf "ChannelQueue.Put" = some ["return nil"] ∧
+    Gen.bcqGuardsOf "ChannelQueue.PutWithTimeout" = some ["return nil", "return ErrQueuePutTimeout"] ∧
+    Gen.bcqGuardsOf "ChannelQueue.Take" = some ["set val, ok := <-q", "if !ok", "return *new(T), ErrQueueIsClosed", "return val, nil"] ∧
+    Gen.bcqGuardsOf "ChannelQueue.TakeWithTimeout" = some ["set val, ok := <-q", "if !ok", "return *new(T), ErrQueueIsClosed",
+      "return val, nil", "return *new(T), ErrQueueTakeTimeout"] ∧
+    Gen.bcqGuardsOf "ChannelQueue.Offer" = some ["return nil", "return ErrQueueIsFull"] ∧
+    Gen.bcqGuardsOf "ChannelQueue.Poll" = some ["set val, ok := <-q", "if !ok", "return *new(T), ErrQueueIsClosed",
+      "return val, nil", "return *new(T), ErrQueueIsEmpty"] := by decide +kernel
 
 end FpgoVerif.C07
